@@ -571,6 +571,37 @@ func (n *nodeSim) checkIDs(items map[string]storage.BundleItem) {
 			}
 		}
 	}
+	// bundles the node originates itself (routing metadata, status reports, pongs): two different ones never
+	// leave the node under one ID (the same one may of course go to several peers)
+	type gen struct {
+		fp   string
+		kind string
+	}
+	first := map[string]gen{}
+	for _, s := range n.sends {
+		if s.parseErr != nil || s.kind == "data" || !s.bundle.PrimaryBlock.SourceNode.SameNode(bpv7.MustNewEndpointID(simNodeEID)) {
+			continue
+		}
+		fp := s.bundle.PrimaryBlock.Destination.String() + "|" + string(payloadOf(&s.bundle))
+		for _, t := range []uint64{bpv7.ExtBlockTypeProphetBlock, bpv7.ExtBlockTypeDTLSRBlock} {
+			if cb, err := s.bundle.ExtensionBlock(t); err == nil {
+				var buf bytes.Buffer
+				_ = bpv7.GetExtensionBlockManager().WriteBlock(cb.Value, &buf)
+				if t == bpv7.ExtBlockTypeProphetBlock || t == bpv7.ExtBlockTypeDTLSRBlock {
+					// maps are serialised in Go's map order: compare the decoded content instead
+					fp += fmt.Sprintf("|%d:%v", t, cb.Value)
+				} else {
+					fp += fmt.Sprintf("|%d:%x", t, buf.Bytes())
+				}
+			}
+		}
+		key := fmt.Sprintf("%d/%s", s.incarn, s.idStr)
+		if g, ok := first[key]; ok && g.fp != fp {
+			n.res.Violate("C14", "distinct-wire-id", "two-node-generated-bundles-same-wire-id/"+s.kind, "two different %s bundles of this node left it as %s (destinations / contents differ)", s.kind, s.idStr)
+		} else if !ok {
+			first[key] = gen{fp, s.kind}
+		}
+	}
 	// every pending store record holds the payload of exactly one submission: two submissions
 	// never share a record (the second would be lost)
 	owners := map[string]string{}
